@@ -23,7 +23,7 @@ SIDE_ADT = MOD + "::Side"
 PREMISES = [("C07", ["R07.2:zip-entry-kind", "R07.2:zip-entry"])]
 
 CLAIM = {
- "text": "Necessary conditions of the client/server merge, decided on the typed HIR of dukebox/src/merge.rs: "
+ "text": "Necessary conditions of the client/server merge, decided on the typed HIR of dukebox/src/merge.rs (premise evaluated with it: C07 R07.2 zip-entry-kind - a zip entry is reported as a class exactly when its name ends in `.class`): "
          "(R13.1) in merge_preserve_order every membership predicate `!S.contains(x)` tests the list x was NOT drawn from, "
          "the common-element step advances both cursors, every step emits the element it took and records progress, "
          "exactly one of the two remainders is appended filtered against the other list; "
